@@ -147,3 +147,31 @@ Section Check08.
                       | Some e => guard_entry (cpath c) (cpath c) e
                       end) plan.
 End Check08.
+
+(* ---------- the statements of C08 / C09 as propositions ---------- *)
+
+(* what the old entry e of a transition expects at the position q below the
+   transition's path (removal only descends through directories) *)
+Fixpoint expect_at (e : entry) (q : path) : oentry :=
+  match q with
+  | [] => Some e
+  | k :: q' =>
+    match e with
+    | EDir ec => match lookup k ec with
+                 | Some e' => expect_at e' q'
+                 | None => None
+                 end
+    | _ => None
+    end
+  end.
+
+(* no path of the plan is a prefix of the path of another transition *)
+Definition plan_disjoint (plan : list change) : Prop :=
+  forall c1 c2, In c1 plan -> In c2 plan -> is_prefix (cpath c1) (cpath c2) = true -> c1 = c2.
+
+(* names a directory listing can contain and a path can be made of *)
+Definition listed_name (k : name) : bool := negb (String.eqb k ".") && negb (String.eqb k "..").
+
+(* a problem recorded at a path between top and top ++ q *)
+Definition problem_between (problems : list problem) (top q : path) : Prop :=
+  exists q1 k, is_prefix q1 q = true /\ In ((top ++ q1)%list, k) problems.
